@@ -107,6 +107,16 @@ fn main() { loop { nap(); } }`},
 	{name: "spawn-sleep-years", endless: true, vmOnly: true, check: noOutput, src: `
 fn w(id: int) { time.sleep(500000000.0 + 1.0); println("w woke", id); }
 fn main() { for i in 0..N { spawn w(i); } time.sleep(700000000.0); println("main woke"); }`},
+	{name: "spawn-loop-with-list-arguments", endless: true, vmOnly: true, fixedN: 1, check: nil, src: `
+fn worker(l: [int], o: { n: int }) { let s = o.n; for x in l { s = s + x; } }
+fn main() {
+    let l = [1, 2, 3];
+    let o = new { n: 4 };
+    loop { spawn worker(l, o); time.sleep(0.001); }
+}`},
+	{name: "spawn-relay-endless", endless: true, vmOnly: true, fixedN: 1, check: nil, src: `
+fn step(n: int) { spawn step(n + 1); }
+fn main() { step(0); }`},
 	{name: "huge-range-left-by-break", endless: true, check: noOutput, src: `
 fn main() {
     for i in 0..4000000000000 { if i == 5 { break; } }
